@@ -12,7 +12,7 @@ R(n, h) == [op |-> "merkle.Real", in |-> [n |-> n, hash |-> h, shape |-> IF n = 
 LP(n) == [op |-> "merkle.lp2", in |-> [n |-> n]]
 Vectors ==
      [n \in 1..(GenN + 1) |-> H(n - 1, <<>>)]
-  \o [n \in 1..(GenN + 1) |-> R(n - 1, IF n % 2 = 0 THEN "sha256" ELSE "blake2b")]
+  \o [n \in 1..(GenN + 1) |-> R(n - 1, <<"sha256", "blake2b", "sha512", "sha384", "sha512_256">>[(n % 5) + 1])]
   \o SetToSeq(UNION {{H(n, <<i>>) : i \in 0..(n-1)} : n \in {1, 2, 3, 5, 8, 13}})
   \o SetToSeq({H(7, <<i, j>>) : i \in 0..6, j \in 0..6} \ {H(7, <<i, i>>) : i \in 0..6})
   \o SetToSeq({LP(n) : n \in {2, 3} \cup {Pow(2, k) + d : k \in 2..30, d \in {-1, 0, 1}} \cup {2147483647, 1000000, 65537, 65538, 131073}})
